@@ -33,7 +33,7 @@ enum YieldKind
     YK_DONE
 };
 
-constexpr int MAXT = 4;
+constexpr int MAXT = 320; // ordinary runs use 1-4 simulated threads, a few C09 runs several hundred
 constexpr uint64_t STEP_BUDGET = 2000000; // far above any legitimate run (< 50k); a livelock, not a long record
 
 extern Counter f_preempt, f_stall, p_contended, f_clockjump, f_lock_timeout;
@@ -62,7 +62,10 @@ struct Scheduler
     Th t[MAXT];
     sem_t main_sem;
     bool pool_started = false;
+    int pool_size = 0;
     bool active = false;
+    bool stall_first_writer = false; // run knob: the first thread inside the stream buffer loses its priority
+    bool stalled_once = false;
     int nthreads = 0;
     int current = -1;
     uint64_t steps = 0;
@@ -111,18 +114,32 @@ struct Scheduler
         return id;
     }
 
-    void start_pool()
+    // pool threads are created on demand (most processes never need more than 4)
+    void start_pool(int n)
     {
-        if (pool_started)
-            return;
-        pool_started = true;
-        sem_init(&main_sem, 0, 0);
-        for (int i = 0; i < MAXT; i++)
+        if (!pool_started)
+        {
+            pool_started = true;
+            sem_init(&main_sem, 0, 0);
+        }
+        for (int i = pool_size; i < n && i < MAXT; i++)
         {
             sem_init(&t[i].go, 0, 0);
             t[i].th = std::thread([this, i] { pool_main(i); });
             t[i].th.detach();
+            pool_size = i + 1;
         }
+    }
+    // called by the stream buffer when a thread enters it: with the knob set, the first writer of a
+    // run is stalled (PCT priority below everybody), so that all other threads queue up behind it
+    void maybe_stall_writer()
+    {
+        int me = self_id();
+        if (!stall_first_writer || stalled_once || !active || me < 0 || me != current)
+            return;
+        stalled_once = true;
+        t[me].prio = -1000000;
+        f_stall++;
     }
 
     void pool_main(int i)
@@ -562,8 +579,9 @@ struct Scheduler
     void begin_run(int n, Rng* r, const std::vector<int>* rep, int strat, unsigned sw,
                    const std::vector<uint64_t>& pct, const std::vector<int>& prios)
     {
-        start_pool();
+        start_pool(n);
         nthreads = n;
+        stalled_once = false;
         rng = r;
         replay = rep;
         replay_pos = 0;
@@ -582,7 +600,7 @@ struct Scheduler
         now_ns = 1000000000;
         elapsed_ns = 0;
         unlock_not_owner = false;
-        for (int i = 0; i < MAXT; i++)
+        for (int i = 0; i < std::max(n, pool_size) && i < MAXT; i++)
         {
             t[i].st = i < n ? S_RUNNABLE : S_DONE;
             t[i].blocked_on = -1;
@@ -711,6 +729,7 @@ protected:
             }
             if (b.inside++ == 0)
                 b.inside_thread = me;
+            Scheduler::get().maybe_stall_writer();
         }
         ~Enter()
         {
